@@ -110,6 +110,7 @@ fn core_scenarios(thorough: bool) -> Vec<coreapp::Scenario> {
         sc("resolve_vs_noop", vec![go(1, vec![once(1, 2)])], vec![vec![Resolve { task: 1, v: 5 }], vec![go(2, vec![])]]),
         sc("resolve_vs_resolve_same_command", vec![go(1, vec![once(1, 1), once(2, 1)])], vec![vec![Resolve { task: 1, v: 5 }], vec![Resolve { task: 2, v: 6 }]]),
         sc("stream_vs_request", vec![go(1, vec![many(1)])], vec![vec![Resolve { task: 1, v: 5 }, Resolve { task: 1, v: 6 }], vec![go(2, vec![once(2, 1)])]]),
+        sc("event_spawns_effect", vec![], vec![vec![go(1, vec![emit(50, 1)])], vec![go(2, vec![])]]),
         sc("drop_vs_resolve", vec![go(1, vec![once(1, 1), many(2)])], vec![vec![DropReq { task: 1 }, go(3, vec![])], vec![Resolve { task: 2, v: 6 }]]),
     ];
     if thorough {
